@@ -13,19 +13,42 @@ META = {
         "quick": {"aggregation": "2 participants: all secrets d_i in [1,N-1] (all key parities), nonce pairs in [1,N-1], all 32-byte messages, "
                                  "merkle root absent / any 32 bytes; every parity path of R and of the (tweaked) aggregate key",
                   "alteration": "the sum of partial signatures offset by any delta in [1,N-1] (covers a missing or altered partial signature), untweaked key",
-                  "order": "both orders of 2 keys"},
-        "thorough": {"aggregation": "2 and 3 participants", "alteration": "also with the taproot tweak", "order": "all 6 orders of 3 keys"}},
+                  "order": "both orders of 2 keys",
+                  "history": "2 participants, no merkle root: participant 0's own MuSigTapScript object already went through (a) nonce "
+                             "aggregation + compute_k, or (b) one sign() call, of an earlier abandoned round for the SAME message and merkle "
+                             "root with arbitrary other nonces (aggregate nonce o*G, all o in [1,N-1]); the new round must still sum to a valid signature",
+                  "leaf spends": "k-of-n CHECKSIG/CHECKSIGADD leaves (1,2), (2,2), (2,3) [single_leaf script; n == k: the script of a "
+                                 "multi_leaf_tree leaf], every k-subset of signers, spent through initialize_p2tr_multisig / get_sig_taproot / "
+                                 "finalize_p2tr_multisig / verify_input on a 1-input 1-output transaction with symbolic fields; every combination "
+                                 "of signature forms per signer (64-byte SIGHASH_DEFAULT / 65-byte explicit), each explicit hash type byte "
+                                 "symbolic and independent in {01,02,03,81,82,83}; keys and signatures symbolic (ideal signatures)"},
+        "thorough": {"aggregation": "2 and 3 participants", "alteration": "also with the taproot tweak", "order": "all 6 orders of 3 keys",
+                     "history": "also with merkle root, 3 participants, and (c) ONE shared object after a complete earlier round "
+                                "(all partial signatures and get_signature) for the same message",
+                     "leaf spends": "also (3,3), (1,3), (3,4), (2,4)"}},
     "outside": ["'each k-subset owns exactly one leaf and its spend verifies' is a finite structural fact about itertools.combinations with no "
                 "symbolic content: executed concretely for (k,n) <= (3,4) with real keys and reported as NOT solver-decided (O3)",
                 "participants whose x-only keys coincide (assumed pairwise different: the key set is a set)",
-                "key sets of size 4 and 5 (same code path; the solver work grows with the number of sort orders)"],
+                "key sets of size 4 and 5 (same code path; the solver work grows with the number of sort orders)",
+                "leaf spends (O4): 'signed by that subset' is read as: every member signs the spending transaction with Tx.get_sig_taproot "
+                "(ext_flag=1) under a hash type of its own choice among the seven standard ones, and the spend is assembled with "
+                "Tx.finalize_p2tr_multisig; non-standard hash type bytes, an annex, several inputs (SIGHASH_SINGLE without a matching output) "
+                "and signatures handed over in another order than the sorted keys are outside",
+                "leaf spends (O4), symbolic run: the leaf is the only leaf of its tree (empty merkle path) under an arbitrary internal key; "
+                "merkle paths of the generated multi_leaf_tree are exercised by the replay only (k-of-(k+1) wallet, real keys)"],
     "stubs": ["abstract prime-order group with X injective up to sign", "tagged SHA-256 uninterpreted", "secrets.randbelow returns arbitrary values",
-              "dicts keyed by x-only keys hash by provenance (core.HASH_BY_PROVENANCE) under the pairwise-distinct-keys assumption"],
+              "dicts keyed by x-only keys hash by provenance (core.HASH_BY_PROVENANCE) under the pairwise-distinct-keys assumption",
+              "O4 only (stand-ins of checks/c06.py): S256Point -> key named by its x-only encoding, verify_schnorr -> uninterpreted predicate "
+              "ValidS(key, digest, signature), PrivateKey.sign_schnorr -> fresh symbolic 64 bytes assumed ValidS for the signer's key on the "
+              "signed digest and not valid for the other script keys; SHA-256 uninterpreted with collision-freeness instances"],
     "assumptions": ["prime-order group (C03)", "aggregate / tweaked keys and the aggregate nonce are not the point at infinity (probability 2^-256)",
-                    "verify_schnorr == BIP340 verification (C02)"],
+                    "verify_schnorr == BIP340 verification (C02)",
+                    "O4: sign_schnorr produces signatures that verify under the signer's key for the signed digest and under no other script "
+                    "key (C02); the tapscript keys are pairwise different"],
 }
 MANIFEST = {"technique": "symbolic execution of the real MuSigTapScript code over an abstract prime-order group; the BIP340 equation for the sum of "
-                         "partial signatures is decided by the GF(N) canonical form, ranges/parities by z3 (LIA)"}
+                         "partial signatures is decided by the GF(N) canonical form, ranges/parities by z3 (LIA); leaf spends (O4): symbolic execution of "
+                         "the real Tx / Script / opcode / BIP341 digest code with ideal signatures (z3 bit-vectors + uninterpreted functions)"}
 
 
 def _setup(e, n, with_root):
@@ -55,10 +78,10 @@ def _agg_path(e, n, with_root, tamper, prior=False):
     def wit(env):
         return {"n": n, "d": [env[f"d{i}"] for i in range(n)], "k": [[env[f"k{i}a"], env[f"k{i}b"]] for i in range(n)],
                 "msg": bytes_env(env, "msg", 32).hex(), "root": bytes_env(env, "root", 32).hex() if with_root else "",
-                "delta": env.get("delta", 0), "prior": [[env[f"o{i}a"], env[f"o{i}b"]] for i in range(n)] if prior else None}
+                "delta": env.get("delta", 0), "prior": [[env.get(f"o{i}a", 1), env.get(f"o{i}b", 1)] for i in range(n)] if prior else None, "prior_signed": prior == "signed", "prior_complete": prior == "complete"}
     try:
         musig = tm.MuSigTapScript(pts)
-        mine = tm.MuSigTapScript(pts) if prior else musig
+        mine = tm.MuSigTapScript(pts) if prior and prior != "complete" else musig
     except AttributeError:
         return "agg-infinity"  # aggregate key at infinity: excluded (stated assumption)
     assume(wrapb(core.b_not(F.is_zero_cond(field.lift_si(musig.point.d)))))
@@ -66,10 +89,30 @@ def _agg_path(e, n, with_root, tamper, prior=False):
         # history: participant 0 keeps its own MuSigTapScript object, which already went through an abandoned attempt for the same
         # message with other nonces (coefficient and k evaluated); it then joins this session with the same object
         old = [(SI.var(f"o{i}a", 1, N - 1), SI.var(f"o{i}b", 1, N - 1)) for i in range(n)]
+        if prior == "signed":
+            # ... or as far as participant 0's partial signature: sign() called on the object for the same message and merkle root
+            # with the aggregate nonce o0a*G and the secret nonce o0b of that earlier round (both arbitrary)
+            try:
+                mine.sign(privs[0], old[0][1], old[0][0] * e.G, msg, root)
+            except AttributeError:
+                return "infinity"
+            old = []
         try:
-            osums = mine.nonce_sums([(a * e.G, b * e.G) for a, b in old])
-            mine.compute_r(osums, msg)
-            mine.compute_k(old[0], osums, msg)
+            if old:
+                osums = mine.nonce_sums([(a * e.G, b * e.G) for a, b in old])
+                orr = mine.compute_r(osums, msg)
+                ok0 = mine.compute_k(old[0], osums, msg)
+            if prior == "complete":
+                # ... or ONE object shared by everybody went through a complete earlier round (all partial signatures, get_signature)
+                assume(wrapb(core.b_not(F.is_zero_cond(field.lift_si(orr.d)))))
+                osum = mine.sign(privs[0], ok0, orr, msg, root)
+                for (a, b), priv in list(zip(old, privs))[1:]:
+                    osum = osum + mine.sign(priv, mine.compute_k((a, b), osums, msg), orr, msg, root)
+                try:
+                    mine.get_signature(osum, orr, msg, root)
+                except ValueError:
+                    check(False, "the sum of all partial signatures is not a valid BIP340 signature for the aggregate key", witness=wit)
+                    return "invalid"
         except AttributeError:
             return "infinity"
     pairs = [(a * e.G, b * e.G) for a, b in nonces]
@@ -127,13 +170,22 @@ def replay_aggregate(w):
     musig = taproot.MuSigTapScript(pts)
     mine = musig
     if w.get("prior"):
-        mine = taproot.MuSigTapScript(pts)
+        mine = musig if w.get("prior_complete") else taproot.MuSigTapScript(pts)
         old = [tuple(x) for x in w["prior"]]
         if old == [tuple(x) for x in w["k"]]:
             old = [(a + 1, b + 2) for a, b in old]
-        osums = mine.nonce_sums([(a * pecc.G, b * pecc.G) for a, b in old])
-        mine.compute_r(osums, msg)
-        mine.compute_k(old[0], osums, msg)
+        if w.get("prior_signed"):
+            mine.sign(privs[0], old[0][1], old[0][0] * pecc.G, msg, root)
+        else:
+            osums = mine.nonce_sums([(a * pecc.G, b * pecc.G) for a, b in old])
+            orr = mine.compute_r(osums, msg)
+            ok0 = mine.compute_k(old[0], osums, msg)
+        if w.get("prior_complete"):
+            osum = sum(mine.sign(priv, mine.compute_k(ab, osums, msg), orr, msg, root) for ab, priv in zip(old, privs))
+            try:
+                mine.get_signature(osum, orr, msg, root)
+            except ValueError:
+                return {"violated": True, "observed": f"n={n}: the earlier round's own sum of partial signatures was rejected"}
     pairs = [(a * pecc.G, b * pecc.G) for a, b in w["k"]]
     sums = musig.nonce_sums(pairs)
     r = musig.compute_r(sums, msg)
@@ -245,6 +297,116 @@ def replay_subsets(w):
     return {"violated": bool(probs), "observed": "; ".join(probs) or "structure as specified"}
 
 
+# ------------------------------------------------------------------------------------------------ O4: leaf spends through the library
+HASH_TYPES = (1, 2, 3, 0x81, 0x82, 0x83)
+
+
+def _leaf_spend_path(k, n, signers, forms):
+    """a k-of-n tapscript leaf (the script of TapRootMultiSig.single_leaf; n == k: the script of a multi_leaf_tree leaf) spent through
+    Tx.initialize_p2tr_multisig / get_sig_taproot / finalize_p2tr_multisig by the k-subset `signers`. forms[i] is the form of the
+    i-th signer's signature (a size parameter): 'd' = 64 bytes (SIGHASH_DEFAULT), 'x' = 65 bytes with an explicit hash type byte,
+    which is symbolic and independent per signer. Keys, transaction fields and signatures are symbolic (ideal-signature stand-ins of
+    checks/c06.py: an honest signature is valid for its own key and digest; Tx.verify_input, Script.evaluate, OP_CHECKSIG(ADD), the
+    BIP341 digest, the control block check and the finaliser are the library's code)."""
+    from checks import c06
+    c06.reset_path()
+    t = c06.sym_tmpl("p2tr-csa", k, n)
+    for a, b in zip(t.xkeys, t.xkeys[1:]):
+        c06.assume_nq(core.sbytes(a) < b)  # MultiSigTapScript sorts by x-only key: name the keys in that order
+    privs = [c06.PrivStub(p, f"k{i}", others=[e for j, e in enumerate(t.xkeys) if j != i]) for i, p in enumerate(t.points)]
+    f = c06.sym_fields()
+    tx = c06.build_tx(t.md, t.spk, [], [], 1, 0, f)
+    hts = []
+    for i, fm in zip(signers, forms):
+        if fm == "d":
+            hts.append(0)
+        else:
+            h = SI.var(f"ht{i}", 1, 0x83)
+            c06.assume_nq(s_or(*[h == v for v in HASH_TYPES]))
+            hts.append(h)
+
+    def wit(env):
+        return {"k": k, "n": n, "signers": list(signers), "hash_types": [h if isinstance(h, int) else env[f"ht{i}"] for i, h in zip(signers, hts)],
+                "tx": dict({v: env[v] for v in c06.TXVARS}, prev=bytes_env(env, "prev", 32).hex())}
+    try:
+        tap_script = t.md.taproot.MultiSigTapScript(list(t.points), k)
+        cb = tap_script.tap_leaf().control_block(t.internal_point)
+        tx.initialize_p2tr_multisig(0, cb, tap_script)
+        by = dict(zip(signers, hts))
+        sigs = [tx.get_sig_taproot(0, privs[i], ext_flag=1, hash_type=by[i]) if i in by else b"" for i in range(n)]
+        ok = bool(tx.finalize_p2tr_multisig(0, sigs))
+        if ok:
+            ok = bool(tx.verify_input(0))
+        how = "ok" if ok else "rejected"
+    except Exception as ex:  # noqa
+        ok, how = False, "error:" + type(ex).__name__
+    check(ok, "a k-of-n tapscript leaf spend signed by a k-subset of its keys through the library does not verify", witness=wit)
+    return how
+
+
+def ob_leaf_spend(k, n, cases):
+    runs = [sym_run(lambda: _leaf_spend_path(k, n, tuple(sg), fm), timeout_ms=60000, max_violations=2, max_paths=4000) for sg, fm in cases]
+    r = merge_runs(runs)
+    r["sample"] = {"leaf": f"{k}-of-{n} CHECKSIG/CHECKSIGADD", "signer subsets x signature forms": [[list(sg), fm] for sg, fm in cases],
+                   "explicit hash type bytes": "symbolic per signer in " + str(list(HASH_TYPES)), "keys / signatures / transaction fields": "symbolic"}
+    if "'ok'" not in r["classes"] and not r["violations"]:
+        r["inconclusive"].append("reachability twin: outcome 'ok' never reached")
+    return r
+
+
+def _real_leaf_spend(pts, privs, k, kind, own, hts, f):
+    """the library's own flow on real keys: returns (finalize result, verify_input, every signature valid on its own under BIP340)"""
+    from buidl import taproot, tx as txm, script as sc
+    from buidl.ecc import SchnorrSignature
+    from checks.c02 import ref_verify
+    t = taproot.TapRootMultiSig(pts, k)
+    internal = t.default_internal_pubkey
+    if kind == "single":
+        root = leaf = t.single_leaf()
+    else:
+        root = t.multi_leaf_tree()
+        want = sorted(pts[i].xonly() for i in own)
+        leaf, = [lf for lf in root.leaves() if sorted(p.xonly() for p in lf.tap_script.points) == want]
+    ti = txm.TxIn(bytes.fromhex(f["prev"]), f["pidx"], sc.Script([]), f["seq"])
+    ti._value = f["value"]
+    ti._script_pubkey = internal.p2tr_script(root.hash())
+    tx = txm.Tx(f["version"], [ti], [txm.TxOut(f["amount"], sc.P2WPKHScriptPubKey(b"\x42" * 20))], f["locktime"], network="mainnet", segwit=True)
+    tx.initialize_p2tr_multisig(0, root.control_block(internal, leaf), leaf.tap_script)
+    by = dict(zip(own, hts))
+    sigs, each = [], True
+    for i in range(len(pts)):
+        if i in by:
+            sg = tx.get_sig_taproot(0, privs[i], ext_flag=1, hash_type=by[i])
+            each = each and ref_verify(pts[i].x.num, tx.sig_hash_bip341(0, ext_flag=1, hash_type=by[i]), sg[:64])
+            sigs.append(sg)
+        elif kind == "single":
+            sigs.append(b"")
+    try:
+        fin = bool(tx.finalize_p2tr_multisig(0, sigs))
+        ver = bool(tx.verify_input(0))
+    except Exception as ex:  # noqa
+        return f"raised {ex!r}", False, each
+    return fin, ver, each
+
+
+def replay_leafspend(w):
+    from buidl import pecc
+    k, n, own, hts = w["k"], w["n"], list(w["signers"]), list(w["hash_types"])
+    privs = sorted((pecc.PrivateKey(0xC13 * 7919 + 104729 * i) for i in range(n + 1)), key=lambda p: p.point.xonly())
+    res = [("single_leaf", _real_leaf_spend([p.point for p in privs[:n]], privs[:n], k, "single", own, hts, w["tx"]))]
+    if n == k and n < 5:
+        # the same k keys as one leaf of the multi_leaf_tree of a k-of-(k+1) wallet (a merkle path above the leaf)
+        res.append(("multi_leaf_tree", _real_leaf_spend([p.point for p in privs], privs, k, "multi", own, hts, w["tx"])))
+    bad = [(nm, r) for nm, r in res if r[2] and not (r[0] is True and r[1])]
+    return {"violated": bool(bad), "observed": f"{k}-of-{n} leaf, signers {own} with hash types {hts}: " +
+            "; ".join(f"{nm}: finalize_p2tr_multisig -> {r[0]}, verify_input -> {r[1]}, each signature valid on its own: {r[2]}" for nm, r in res),
+            "expected": "finalize_p2tr_multisig and verify_input both True"}
+
+
+def _forms(k):
+    return ["".join(x) for x in itertools.product("dx", repeat=k)]
+
+
 def obligations(tier):
     q = tier == "quick"
     obs = [Ob("O3-subsets-concrete", ob_subsets, replay="subsets", budget_s=1500)]
@@ -256,6 +418,16 @@ def obligations(tier):
                 obs.append(Ob("O1-altered", ob_aggregate, {"n": n, "with_root": wr, "tamper": True}, replay="aggregate", budget_s=4000))
         obs.append(Ob("O2-order", ob_order, {"n": n}, replay="order", budget_s=1500))
         if n == 2 or not q:
-            obs.append(Ob("O1-aggregate-history", ob_aggregate, {"n": n, "with_root": False, "tamper": False, "prior": True}, replay="aggregate",
+            # history on one MuSigTapScript object: an earlier round for the same message and merkle root with other nonces, abandoned
+            # after participant 0's partial signature; the next round (fresh nonces) must still sum to a valid signature
+            for wr in ((False,) if q else (False, True)):
+                for pr in ((True, "signed") if q else (True, "signed", "complete")):
+                    obs.append(Ob("O1-aggregate-history", ob_aggregate, {"n": n, "with_root": wr, "tamper": False, "prior": pr},
+                                  replay="aggregate", budget_s=3000))
+    # O4: leaf spends through the library's helpers, every k-subset of the leaf's keys, every combination of signature forms
+    # (64-byte default / 65-byte explicit, the explicit hash type byte symbolic and independent per signer)
+    for (k, n) in (((1, 2), (2, 2), (2, 3)) if q else ((1, 2), (2, 2), (2, 3), (3, 3), (1, 3), (3, 4), (2, 4))):
+        for sg in itertools.combinations(range(n), k):
+            obs.append(Ob("O4-leaf-spend", ob_leaf_spend, {"k": k, "n": n, "cases": [(sg, fm) for fm in _forms(k)]}, replay="leafspend",
                           budget_s=3000))
     return obs
